@@ -177,7 +177,7 @@ def oracle_learn(ctx: Ctx, case):
             if identical(base, obs):
                 bit_identical_observed += 1
             ctx.check(all(x.tobytes() == y.tobytes() for x, y in zip(before, leaves(policy))), "C11/input-policy-modified", tags=tags)
-        ctx.count(nontrivial=trained and len(case["callback_sets"]) > 0, classes=[name, env_name] + case["callback_sets"] + [f"observer_runs_bit_identical={bit_identical_observed}/{len(case['callback_sets'])}"], key=[name, env_name, hp, case["key"], case["callback_sets"]])
+        ctx.count(nontrivial=trained and (len(case["callback_sets"]) > 0 or bool(case.get("short"))), classes=[name, env_name] + ["single_iteration"] * bool(case.get("short")) + case["callback_sets"] + [f"observer_runs_bit_identical={bit_identical_observed}/{len(case['callback_sets'])}"], key=[name, env_name, hp, case["key"], case["callback_sets"]])
     finally:
         shutil.rmtree(tmp, ignore_errors=True)
 
@@ -200,7 +200,7 @@ def run(ctx: Ctx):
         "hyper-parameters and keys: learn() twice with identical inputs (bit-identical array leaves required), once with another "
         "key (must differ), input policy compared with a host copy taken beforehand, and once per observer set (equal up to reassociation-level rounding: rtol 1e-4 / atol 1e-5, integer leaves exactly; see DESIGN 5.3) (None, [], a no-op "
         "callback, ProgressBar, LoggingCallback with a recording back end, LoggingCallback with Console+TensorBoard, a list of two) "
-        "against the unobserved run. Non-trivial: training changed the policy and at least one observer set was attached; distinct "
+        "against the unobserved run; plus one single-iteration run per algorithm (same key twice, another key, purity). Non-trivial: training changed the policy and at least one observer set was attached; distinct "
         "by (algorithm, env, hyper-parameters, key, observer sets)."
     )
     ctx.assumptions = ["bit-identity within one process / XLA build", "observer output is captured (stdout/stderr redirected, TensorBoard in a temp dir)"]
@@ -223,4 +223,8 @@ def run(ctx: Ctx):
                 sets = list(CALLBACK_SETS[1:]) if not ctx.quick else ["empty_list", "list_of_two", str(rng.choice(["noop", "progress", "logging_recording", "logging_console_tb"]))]
                 cases.append({"algo": name, "env": env_name, "hp": hp, "total": E * S * iters + int(rng.integers(0, E * S)), "key": int(rng.integers(0, 2**31 - 10)), "pkey": int(rng.integers(0, 2**31 - 10)), "callback_sets": sets})
             payloads.append(cases)
+        # the shortest possible run (a single iteration, no observers): determinism, purity and key-dependence must already hold
+        E, S = int(rng.choice([1, 2])), int(rng.choice([1, 3]))
+        hp = {"num_envs": E, "num_steps": S, "num_batches": 1, "num_epochs": 1}
+        payloads.append([{"algo": name, "env": envs[name][0], "hp": hp, "total": E * S + int(rng.integers(0, E * S)), "key": int(rng.integers(0, 2**31 - 10)), "pkey": int(rng.integers(0, 2**31 - 10)), "callback_sets": [], "short": True}])
     run_pool(ctx, "checks.c11_reproducibility", "worker", payloads, procs=10)
